@@ -4,6 +4,7 @@
 import TealerModel.Props.Common
 import TealerModel.Props.TieMatchers
 import TealerModel.Props.TieWorklist
+import TealerModel.Lemmas.IndexLeaf
 namespace Tealer.C10
 
 /-- attribution: a value is matched to an absolute-index key only if it is a group read whose index is classified
@@ -133,5 +134,47 @@ theorem C10_tie_update_gtxn {D : Type} [DecidableEq D] (A : Analysis D) (gi : Li
 theorem C10_impossible_index_empty {D : Type} [DecidableEq D] (A : Analysis D) (gi : List Nat) (i : Nat) (v base : D)
     (h : i ∉ gi) : updateGtxn A gi i v base = A.dom.null := by
   simp [updateGtxn, h]
+
+/-- the tool's classification of the two stack-index forms (the function `C10_tie_index_classification` ties to the Python):
+    `txn GroupIndex; int n; +` is the relative index n, `int i` the absolute index i -/
+theorem C10_classify_add (ic : Option (List Nat)) (a : Ast) (pa p1 p2 o1 o2 n : Nat) (hop : a.opOf pa = .add)
+    (hargs : a.argsOf pa = [some (p1, o1), some (p2, o2)]) (h1 : a.opOf p1 = .txn "GroupIndex") (h2 : a.opOf p2 = .int (.lit n)) :
+    getIndex ic a pa = .relative (n : Int) := by
+  simp [getIndex, hop, hargs, intPush, isGroupIndexRead, h1, h2, intLit]
+
+theorem C10_classify_int (ic : Option (List Nat)) (a : Ast) (p n : Nat) (h : a.opOf p = .int (.lit n)) :
+    getIndex ic a p = .absolute n := by
+  simp [getIndex, h, intPush]
+
+/-- READS THROUGH `txn GroupIndex; int n; +; gtxns f` ARE ATTRIBUTED TO THE RIGHT TRANSACTION - against the concrete semantics.
+    In a straight run of a block of the concrete machine (values `valOf` = what the instructions really pushed, `C11_block_operands`),
+    a `gtxns f` whose reconstructed index operand is a `+` of the outputs of `txn GroupIndex` and `int n` pushes field `f` of the
+    group member at position (own index + n): the member the tool's classification `relative n` (`C10_classify_add`) stands for -/
+theorem C10_index_concrete_rel (prog : List Ins) (e : Avm.Env) (blockIns : List Ins) (pc0 : Nat) (st : Nat → Avm.State) (k : Nat)
+    (hrun : OperandValues.BlockRun prog e blockIns pc0 k st) (valOf : Nat × Nat → Avm.Val)
+    (hout : ∀ j, j < k → ∀ i, i < (blockIns[j]!).op.pushes →
+      (st (j + 1)).stack[(st j).stack.length - (blockIns[j]!).op.pops + i]? = some (valOf (j, i)))
+    (hargs : ∀ j, j < k → List.Forall₂ (OperandValues.Agree valOf) (OperandValues.argsAt blockIns j)
+      ((st j).stack.drop ((st j).stack.length - (blockIns[j]!).op.pops)))
+    (p pa p1 p2 : Nat) (f : String) (n : Nat) (hp : p < k) (hpa : pa < k) (hp1 : p1 < k) (hp2 : p2 < k)
+    (hopp : (blockIns[p]!).op = .gtxns f) (hopa : (blockIns[pa]!).op = .add)
+    (hop1 : (blockIns[p1]!).op = .txn "GroupIndex") (hop2 : (blockIns[p2]!).op = .int (.lit n))
+    (hargsp : OperandValues.argsAt blockIns p = [some (pa, 0)])
+    (hargsa : OperandValues.argsAt blockIns pa = [some (p1, 0), some (p2, 0)]) :
+    e.field (e.self + n) f = some (valOf (p, 0)) :=
+  IndexLeaf.index_leaf_rel prog e blockIns pc0 st k hrun valOf hout hargs p pa p1 p2 f n hp hpa hp1 hp2 hopp hopa hop1 hop2 hargsp hargsa
+
+/-- ... and `int i; gtxns f` reads member `i` (`C10_classify_int`: absolute index i) -/
+theorem C10_index_concrete_abs (prog : List Ins) (e : Avm.Env) (blockIns : List Ins) (pc0 : Nat) (st : Nat → Avm.State) (k : Nat)
+    (hrun : OperandValues.BlockRun prog e blockIns pc0 k st) (valOf : Nat × Nat → Avm.Val)
+    (hout : ∀ j, j < k → ∀ i, i < (blockIns[j]!).op.pushes →
+      (st (j + 1)).stack[(st j).stack.length - (blockIns[j]!).op.pops + i]? = some (valOf (j, i)))
+    (hargs : ∀ j, j < k → List.Forall₂ (OperandValues.Agree valOf) (OperandValues.argsAt blockIns j)
+      ((st j).stack.drop ((st j).stack.length - (blockIns[j]!).op.pops)))
+    (p p2 : Nat) (f : String) (n : Nat) (hp : p < k) (hp2 : p2 < k)
+    (hopp : (blockIns[p]!).op = .gtxns f) (hop2 : (blockIns[p2]!).op = .int (.lit n))
+    (hargsp : OperandValues.argsAt blockIns p = [some (p2, 0)]) :
+    e.field n f = some (valOf (p, 0)) :=
+  IndexLeaf.index_leaf_abs prog e blockIns pc0 st k hrun valOf hout hargs p p2 f n hp hp2 hopp hop2 hargsp
 
 end Tealer.C10
